@@ -295,6 +295,10 @@ PROBE_FNS = [
     ("vvl", ["V", "V"], "L", "const"),
     ("lnv", ["L", "N"], "V", "const"),
     ("zl", [], "L", "const"),
+    # names that begin with a keyword literal (D33)
+    ("truex", ["V"], "L", "const"),
+    ("nullify", ["V"], "V", "pick0"),
+    ("false_1", ["N"], "L", "const"),
 ]
 
 
